@@ -9,7 +9,10 @@ ID = 'C01'
 LEAN_MODULES = ['Proofs.C01']
 REQUIRED = ['C01.sift_residual_inv', 'C01.sift_complete', 'C01.sift_complete_unless_cutshort', 'C01.sift_cutshort_cases',
             'C01.getNextImf_contract', 'C01.sift_getNextImf_complete', 'C01.sift_last_nonoscillatory', 'C01.sift_col_lengths',
-            'C01.sift_pipeline_complete', 'C01.sift_pipeline_last_nonoscillatory']
+            'C01.sift_pipeline_complete', 'C01.sift_pipeline_last_nonoscillatory',
+            'C01.sift_getNextImf_complete_or_energy', 'C01.sift_getNextImf_complete_energy_silent',
+            'C01.sift_getNextImf_cutshort_cases', 'C01.lastEnergyFires_of_none', 'C01.sift_last_nonoscillatory_or_energy',
+            'C01.pipeline_envelopes_faithful', 'C01.pipeline_pad0_not_represented', 'C01.sift_pipeline_cutshort_cases']
 TRUSTED = ['the single-IMF extraction is an oracle table in the SIFT correspondence: row k holds the output and flag of the real '
            'public emd.sift.get_next_imf applied to the residual x - sum(c_0..c_{k-1}) computed by the harness; the model replays '
            'its own outer loop, recomputes every residual exactly and rejects the table (oracle-desync) if a residual drifts by more '
